@@ -55,7 +55,7 @@ func oplText(chars []string) string {
 
 type parseObs struct {
 	Panic      string   `json:"panic,omitempty"`
-	Hang       bool     `json:"hang,omitempty"` // Parse had not returned after parseGrace
+	Hang       bool     `json:"hang,omitempty"`    // Parse had not returned after parseGrace
 	Skipped    bool     `json:"skipped,omitempty"` // not waited for: earlier parses of this process did not return
 	NNamespace int      `json:"nns"`
 	NErrors    int      `json:"nerr"`
